@@ -57,7 +57,8 @@ static void out(const char *fmt, ...) {
   hwv_len += (size_t)n;
 }
 /* end of one event: newline + commit */
-static void out_end(void) { out("\n"); hwv_commit = hwv_len; }
+static int hwv_quiet;                     /* events emitted while set are discarded */
+static void out_end(void) { if (hwv_quiet) { hwv_len = hwv_commit; return; } out("\n"); hwv_commit = hwv_len; }
 /* JSON string with escaping; bytes >= 0x80 and controls are written as \u00XX */
 static void out_jstr(const char *s) {
   if (!s) { out("null"); return; }
@@ -108,8 +109,16 @@ static void hwv_install_handlers(void) {
     sigaction(sigs[i], &sa, NULL);
   }
 }
+/* HWV_LEAKCHECK=1: LeakSanitizer is consulted after every behaviour; a leak is logged as {"e":"Leak"} (no specification
+ * action, so the trace is rejected) and the recorder restarts a fresh child for the next behaviour */
+int __lsan_do_recoverable_leak_check(void) __attribute__((weak));
 const char *__asan_default_options(void);
-const char *__asan_default_options(void) { return "abort_on_error=1:detect_leaks=0:allocator_may_return_null=1:handle_abort=0:handle_segv=0:handle_sigbus=0:handle_sigfpe=0:detect_stack_use_after_return=0"; }
+const char *__asan_default_options(void) {
+  const char *e = getenv("HWV_LEAKCHECK");
+  if (e && *e == '1')
+    return "abort_on_error=1:detect_leaks=1:leak_check_at_exit=0:allocator_may_return_null=1:handle_abort=0:handle_segv=0:handle_sigbus=0:handle_sigfpe=0:detect_stack_use_after_return=0";
+  return "abort_on_error=1:detect_leaks=0:allocator_may_return_null=1:handle_abort=0:handle_segv=0:handle_sigbus=0:handle_sigfpe=0:detect_stack_use_after_return=0";
+}
 const char *__ubsan_default_options(void);
 const char *__ubsan_default_options(void) { return "abort_on_error=1:print_stacktrace=1"; }
 
@@ -138,13 +147,14 @@ static int hwv_load(const char *path, struct hwv_file *f) {
  * handler is called once per behaviour with its lines (first one is the reset line). */
 typedef void (*hwv_handler)(char **lines, size_t nlines, int beh);
 static int hwv_run(const char *inpath, const char *outpath, hwv_handler h) {
-  struct hwv_file f; size_t next = 0; int crashes = 0;
+  struct hwv_file f; size_t next = 0; int crashes = 0, leakcheck = 0;
   if (hwv_load(inpath, &f) < 0) return 2;
   hwv_fd = open(outpath, O_WRONLY | O_CREAT | O_TRUNC | O_APPEND, 0644);
   if (hwv_fd < 0) { perror(outpath); return 2; }
   hwv_progress = mmap(NULL, 4096, PROT_READ | PROT_WRITE, MAP_SHARED | MAP_ANONYMOUS, -1, 0);
   if (getenv("HWV_WATCHDOG")) hwv_watchdog = atoi(getenv("HWV_WATCHDOG"));
   if (getenv("HWV_BEH_BASE")) hwv_beh_base = atoi(getenv("HWV_BEH_BASE"));
+  leakcheck = getenv("HWV_LEAKCHECK") && getenv("HWV_LEAKCHECK")[0] == '1';
   while (next < f.nbeh) {
     pid_t pid; int st;
     *hwv_progress = (int)next;
@@ -160,6 +170,22 @@ static int hwv_run(const char *inpath, const char *outpath, hwv_handler h) {
         alarm((unsigned)hwv_watchdog);
         h(f.lines + s, e - s, (int)b + hwv_beh_base);
         alarm(0);
+        if (leakcheck && __lsan_do_recoverable_leak_check && (b + 1 == f.nbeh || 1)) {
+          /* the behaviour's own state is released by the next reset: check leaks once that happened, i.e. ask the handler to reset now */
+          static char rst[] = "reset 1"; char *one[1]; char tmp[16]; int fd2;
+          memcpy(tmp, rst, sizeof rst); one[0] = tmp;
+          hwv_quiet = 1; h(one, 1, (int)b + hwv_beh_base); hwv_quiet = 0;
+          fd2 = dup(2); { int nul = open("/dev/null", O_WRONLY); if (nul >= 0) { dup2(nul, 2); close(nul); } }
+          if (__lsan_do_recoverable_leak_check()) {
+            char line[64]; int n2;
+            if (fd2 >= 0) { dup2(fd2, 2); close(fd2); }
+            hwv_flush();
+            n2 = snprintf(line, sizeof line, "{\"e\":\"Leak\",\"beh\":%d}\n", (int)b + hwv_beh_base);
+            if (write(hwv_fd, line, (size_t)n2) < 0) {}
+            _exit(78);
+          }
+          if (fd2 >= 0) { dup2(fd2, 2); close(fd2); }
+        }
         if (hwv_commit > (1u<<16)) hwv_flush();
       }
       hwv_flush();
@@ -168,7 +194,7 @@ static int hwv_run(const char *inpath, const char *outpath, hwv_handler h) {
     if (waitpid(pid, &st, 0) < 0) { perror("waitpid"); return 2; }
     if (WIFEXITED(st) && WEXITSTATUS(st) == 0) break;
     crashes++;
-    if (!(WIFEXITED(st) && WEXITSTATUS(st) == 77)) {
+    if (!(WIFEXITED(st) && (WEXITSTATUS(st) == 77 || WEXITSTATUS(st) == 78))) {
       /* died without our handler (e.g. SIGKILL, _exit from a sanitizer): still a crash event */
       char line[96]; int n = snprintf(line, sizeof line, "{\"e\":\"Crash\",\"sig\":%d,\"beh\":%d}\n",
                                       WIFSIGNALED(st) ? WTERMSIG(st) : -WEXITSTATUS(st), *hwv_progress + hwv_beh_base);
